@@ -83,3 +83,12 @@ package crypto
 //@   pure
 //@   ensures result2 == nil ==> len(result0) == 20 && content(result0) == sigaddr(content(msg), content(sig)) && sig != nil
 //@   ensures result2 != nil ==> result0 == nil && result1 == nil
+
+// ---- start-up (C20): an existing key is loaded together with its last-sign record and both are written back as
+// loaded (never reset); a fresh key starts from the zero record
+//@ func LoadOrGenSFilePV(keyFilePath, stateFilePath, s)
+//@   modifies everything
+//@   assert@call(LoadSFilePV,0): $arg0 == keyFilePath && $arg1 == stateFilePath                               [C20]
+//@   assert@call(SaveWith,0): $arg0 == pv && $arg1 == s                                                       [C20]
+//@   assert@call(GenSFilePV,0): $arg0 == keyFilePath && $arg1 == stateFilePath                                [C20]
+//@   assert@call(SaveWith,1): $arg0 == pv && $arg1 == s                                                       [C20]
